@@ -4,6 +4,8 @@ from props import COMMON_TRUST
 def udp_nontrivial(tok, res):
     if tok[0] in ("tunnel", "e2e"):
         return "socks=" in res and not res.startswith("B=;")
+    if tok[0] == "sudp":
+        return "conns=" in res and not res.startswith("W=;")
     if tok[0] == "frame":
         return "rd=toolong" in res or "rd=ok" in res
     if tok[0] == "dec":
@@ -18,6 +20,11 @@ def udp_class(r):
         ferr = r.rsplit("ferr=", 1)[-1] if "ferr=" in r else "0"
         socks = r.rsplit("socks=", 1)[-1].split(";")[0]
         return "socks%s%s" % ("1" if socks == "1" else "N", "+frameerr" if ferr != "0" else "")
+    if r.startswith("W="):
+        conns = r.rsplit("conns=", 1)[-1].split(";")[0]
+        bad = r.rsplit("bad=", 1)[-1]
+        c = "0" if conns == "0" else "1" if conns == "1" else "2-3" if conns in ("2", "3") else "4+"
+        return "conns%s%s" % (c, "" if bad == "0" else "+bad")
     if r.startswith("len="):
         return r.split(";")[2]
     if r == "err":
@@ -43,6 +50,12 @@ PROP = {
             "Frp.C03.no_frame_drop", "Frp.C03.drops_only_overload_witness",
             "Frp.C03.dropsOnlyOverloadOrReconnect_partial",
             "Frp.C03.msEq_sound", "Frp.C03.holdsOn_sound", "Frp.C03.model_safe",
+            "Frp.C03.sudp_reachable_inv", "Frp.C03.sudp_conservation_up", "Frp.C03.sudp_conservation_down",
+            "Frp.C03.sudp_sentV_eq", "Frp.C03.sudp_no_dup_across_connections", "Frp.C03.sudp_wire_payload_sent",
+            "Frp.C03.sudp_reply_routing", "Frp.C03.sudp_reply_no_dup", "Frp.C03.sudp_drop_reasons",
+            "Frp.C03.sudp_drop_causes", "Frp.C03.sudp_lossless_if_no_drop", "Frp.C03.sudp_one_worker",
+            "Frp.C03.sudp_first_datagram_delivered", "Frp.C03.sudp_next_datagram_delivered",
+            "Frp.C03.msSub_sound", "Frp.C03.holdsOnSudp_sound", "Frp.C03.sudp_model_safe",
         ],
         "engines": [
             {"name": "udp", "quick_n": 6000, "thorough_n": 20000, "thorough_seeds": 4,
@@ -52,12 +65,21 @@ PROP = {
         "rule": "udp engine: codec ops (NewUDPPacket/GetContent on every length 0..2048 + random to 64 KiB, "
                 "GetContent on malformed strings, msg.WriteMsg/ReadMsg of UDPPacket around the 10240 limit) and "
                 "tunnel runs (real ForwardUserConn + Forwarder on loopback sockets, 1-6 users, 20-200 datagrams) and "
-                "e2e runs (the same traffic through real frps + frpc in-process, plain / encrypted / compressed); "
-                "non-trivial = a tunnel run that delivered something, a frame accepted or rejected, a malformed "
+                "e2e runs (the same traffic through real frps + frpc in-process, plain / encrypted / compressed) and "
+                "sudp runs (the real client/visitor SUDPVisitor against a scripted far side: 1-4 users, 8-48 script "
+                "tokens = datagrams, bursts, replies, pings, loss of the visitor connection by FIN / unknown frame / "
+                "oversize frame at arbitrary points, connection attempts failing at dial / by error response / by "
+                "close, also several in a row; plain / encrypted / compressed) and e2es runs (tunnel traffic through "
+                "real SUDPVisitor + frps + sudp proxy in-process); "
+                "non-trivial = a tunnel / sudp run that delivered something, a frame accepted or rejected, a malformed "
                 "string that decodes, a non-empty payload; distinct = distinct (op line, result) pairs",
         "trusted": COMMON_TRUST + [
-            "models Frp/Model/Base64.lean, Frp/Model/Udp.lean written by hand; tied by the udp engine "
-            "(real udp.NewUDPPacket/GetContent/ForwardUserConn/Forwarder, msg.WriteMsg/ReadMsg/ReadMsgInto)",
+            "models Frp/Model/Base64.lean, Frp/Model/Udp.lean, Frp/Model/Sudp.lean written by hand; tied by the udp engine "
+            "(real udp.NewUDPPacket/GetContent/ForwardUserConn/Forwarder, msg.WriteMsg/ReadMsg/ReadMsgInto, "
+            "visitor.NewVisitor(SUDPVisitorConfig).Run/Close with a scripted visitor.Helper)",
+            "sudp ops: the far side of the visitor connection (frps + sudp proxy) is played by the harness; the light-load "
+            "schedule of a script (which datagram opens which connection, which one is consumed by a failing attempt) is "
+            "computed by the Lean engine from the model and by the harness from the same rules",
             "tunnel ops re-state the goroutines of server/proxy/udp.go and client/proxy/udp.go that join channels "
             "and work connection in the harness pump; e2e ops run those goroutines themselves (real frps + frpc)",
         ],
@@ -67,6 +89,9 @@ PROP = {
             "UDPAddr.String() is injective on the addresses that occur (map key of udpConnMap)",
             "reconnect is modelled coarsely: the old Forwarder generation is discarded at once (in Go its "
             "reader goroutine still drains the closed channel and old sockets live up to 30 s)",
+            "sudp visitor model: SUDPVisitor.Close (closing sendCh/readCh) is not a label; the 60 s read deadline is "
+            "the label readerDie; 15 ms after the far side has seen the visitor close its end the worker has returned "
+            "(sudp ops re-run once when a datagram sent right after a connection loss is missing)",
             "encryption/compression/bandwidth-limit wrappers of the work connection are byte-transparent (C01/C05)",
         ],
     }
@@ -86,12 +111,20 @@ META = {
                 "multisets, so nothing is duplicated, merged, split or invented), every datagram the backend "
                 "sees on a socket comes from the one user address the socket was dialled for, every reply is "
                 "written back to exactly that address; with packet sizes <= 7605 the only drop reasons are full "
-                "queue, dead/re-established work connection, failed write to the backend. The models are tied to "
-                "the code by ~6000 ops per quick run against the real functions, the Lean predicate being "
-                "evaluated on the implementation's results.",
+                "queue, dead/re-established work connection, failed write to the backend; (4) sudp visitor "
+                "(client/visitor/sudp.go dispatcher / worker / ForwardUserConn as a transition system): for every "
+                "interleaving including any number of losses and re-establishments of the visitor connection and "
+                "failed connection attempts, datagrams received = queued + held in firstPacket + written on exactly "
+                "one visitor connection + dropped (multisets), so nothing is written twice - in particular the datagram "
+                "that opened a connection is not repeated on a later one -, every written packet is one sent datagram "
+                "with its sender's address, replies go to the address they carry, drops only by full queue, failed "
+                "connection attempt or failed write, and at light load the canonical schedule delivers. The models "
+                "are tied to the code by ~5400 ops per quick run against the real functions, the Lean predicate "
+                "being evaluated on the implementation's results.",
         "note": "Known finding: udpPacketSize is not validated; above 7605 a single large datagram produces a "
                 "frame the peer rejects (client side: reader goroutine exits, connection stays up, tunnel is "
                 "dead until restart). Not covered: kernel UDP, goroutine timing (30 s idle-expiry window of a "
-                "per-user socket), the old Forwarder generation after a reconnect, sudp visitor side "
-                "(client/visitor/sudp.go uses the same codec and ForwardUserConn-like loops but was not driven).",
+                "per-user socket), the old Forwarder generation after a reconnect, SUDPVisitor.Close, "
+                "loss of the visitor connection inside a real frps (the scripted far side plays frps there; the "
+                "e2es runs go over one visitor connection).",
     }
